@@ -46,7 +46,7 @@ package bufimageutil
 //
 // remapMethod: from the property: a kept method is in the closure, is unchanged, and does not refer to a
 // request/response type that is not in the filtered image ("contains no excluded element nor any reference to one").
-// FINDING (kept on purpose, fails on this tree): kept-io-present / kept-io-not-excluded. remapMethod looks only at the
+// Failed on the tree before the repair "fix: type filter must reject an included extension whose own type is excluded": kept-io-present / kept-io-not-excluded. remapMethod looks only at the
 // method itself. Model: method mode Unknown, input type mode Excluded, includeTypes == nil. Replayed: a.proto (import)
 // {Req, Resp, Other, service Svc{Do(Req) returns Resp}}, b.proto {M{pkg.Other o}}, WithExcludeTypes("pkg.Req"):
 // a.proto keeps Svc.Do(.pkg.Req) but drops Req; protodesc.NewFiles fails.
@@ -259,6 +259,17 @@ package bufimageutil
 //@   ensures unknown-name-fails: !(typeName in old(imageIndex.ByName)) && !(typeName in old(imageIndex.Packages)) ==> err != nil
 //@   ensures excluded-rejected: typeName in old(imageIndex.ByName) && f_mode(old(t.elements), f_elem(old(imageIndex.ByName), typeName)) == inclusionModeExcluded ==> err != nil
 //@   ensures extension-of-excluded-rejected: typeName in old(imageIndex.ByName) && f_elem(old(imageIndex.ByName), typeName) != nil && typeOf(f_elem(old(imageIndex.ByName), typeName)) == typeId(*descriptorpb.FieldDescriptorProto) && old(cast(*descriptorpb.FieldDescriptorProto, f_elem(imageIndex.ByName, typeName)).Extendee) != nil && f_mode(old(t.elements), f_elem(old(imageIndex.ByName), strings.TrimPrefix(cast(*descriptorpb.FieldDescriptorProto, f_elem(old(imageIndex.ByName), typeName)).GetExtendee(), "."))) == inclusionModeExcluded ==> err != nil
+// "contains every included element together with everything those elements need, and contains no excluded element": an
+// extension field needs its own message / group / enum type just as it needs its extendee, so a filter that includes the
+// extension and excludes that type cannot be satisfied and must be rejected like the two cases above (and like a method
+// whose request / response type is excluded), not answered with an image that silently lacks the included extension.
+// Failed on the tree before the repair "fix: type filter must reject an included extension whose own type is excluded": includeType#post[extension-with-excluded-type-rejected]. includeType looks at
+// the extension's own mark and at its extendee's mark only; addElement then enters the extendee (with its closure, its
+// enclosing elements and an import) BEFORE addFieldType finds the extension's type excluded, marks the extension excluded
+// and returns nil. Replayed: a.proto {message M{extensions 100 to 200; optional U u=1;} message T{} message U{} extend M{
+// optional T e=100;}}, WithIncludeTypes("pkg.e"), WithExcludeTypes("pkg.T"): err == nil, the image holds M and U but not
+// pkg.e, and filtering that image again with the same filter fails (exclusion of type "pkg.T": not found).
+//@   ensures extension-with-excluded-type-rejected: typeName in old(imageIndex.ByName) && f_elem(old(imageIndex.ByName), typeName) != nil && typeOf(f_elem(old(imageIndex.ByName), typeName)) == typeId(*descriptorpb.FieldDescriptorProto) && old(cast(*descriptorpb.FieldDescriptorProto, f_elem(imageIndex.ByName, typeName)).Extendee) != nil && (cast(*descriptorpb.FieldDescriptorProto, f_elem(old(imageIndex.ByName), typeName)).GetType() == descriptorpb.FieldDescriptorProto_TYPE_ENUM || cast(*descriptorpb.FieldDescriptorProto, f_elem(old(imageIndex.ByName), typeName)).GetType() == descriptorpb.FieldDescriptorProto_TYPE_MESSAGE || cast(*descriptorpb.FieldDescriptorProto, f_elem(old(imageIndex.ByName), typeName)).GetType() == descriptorpb.FieldDescriptorProto_TYPE_GROUP) && strings.TrimPrefix(cast(*descriptorpb.FieldDescriptorProto, f_elem(old(imageIndex.ByName), typeName)).GetTypeName(), ".") in old(imageIndex.ByName) && f_mode(old(t.elements), f_elem(old(imageIndex.ByName), strings.TrimPrefix(cast(*descriptorpb.FieldDescriptorProto, f_elem(old(imageIndex.ByName), typeName)).GetTypeName(), "."))) == inclusionModeExcluded ==> err != nil
 //@   canary ensures err != nil
 //@   canary ensures err == nil
 //@   ensures unknown-name-adds-nothing: !(typeName in old(imageIndex.ByName)) && !(typeName in old(imageIndex.Packages)) ==> t.elements == old(t.elements) && t.imports == old(t.imports) && ghost.l_kept == old(ghost.l_kept) && ghost.l_optRead == old(ghost.l_optRead) && ghost.l_impTo == old(ghost.l_impTo) && ghost.l_impCount == old(ghost.l_impCount)
@@ -302,7 +313,7 @@ package bufimageutil
 // everything those elements need". Stated for filters without custom-option retention (the option walk goes through
 // protobuf reflection callbacks and is outside the fragment): including an element never turns a message that was
 // not excluded into an excluded one.
-// FINDING (kept on purpose, fails on this tree): addElement#inv-step[5.1] (the loop over service methods). When only
+// Failed on the tree before the repair "fix: type filter must reject an included extension whose own type is excluded": addElement#inv-step[5.1] (the loop over service methods). When only
 // the OUTPUT type of a method is excluded, bufimageutil.go:529 marks the method's INPUT message as excluded
 // (t.elements[inputInfo.element] = inclusionModeExcluded) instead of the method. Replayed: service Svc{Do(Req) returns
 // Resp; Do2(Req) returns Other}, WithIncludeTypes("pkg.Svc"), WithExcludeTypes("pkg.Resp") drops Do2 and Req as well;
@@ -408,6 +419,15 @@ package bufimageutil
 // imports are recorded only towards the file of an element that is in the closure: either it was there already with a
 // mode other than excluded, or this call has just entered it
 //@   assert before "t.addImport(referrerFile, descriptorInfo.file.Path())" import-target-added: descriptor in ghost.l_kept || (descriptor in t.elements && t.elements[descriptor] != inclusionModeExcluded)
+// minimality, extension case: an extension that is dropped because its own type is excluded contributes nothing to the closure
+// but its own exclusion mark (checked at the very statement that drops it, so the claim is about THIS call only): no other
+// element, no import, nothing explored, nothing else recorded as surviving.
+// Failed on the tree before the repair "fix: type filter must reject an included extension whose own type is excluded": addElement#assert[dropped-extension-added-nothing]. The extendee is entered
+// (t.addElement(extendeeInfo.element, ...): its field types, enclosing elements, options, an import) BEFORE addFieldType decides
+// that the extension does not survive. Same replay as includeType#post[extension-with-excluded-type-rejected]: M and U are in
+// the filtered image although the only element that needed them, pkg.e, is not. Deciding the field type first and entering the
+// extendee only for a surviving extension discharges it.
+//@   assert before "t.elements[descriptor] = inclusionModeExcluded"@2 dropped-extension-added-nothing: t.imports == old(t.imports) && ghost.l_impCount == old(ghost.l_impCount) && ghost.l_impTo == old(ghost.l_impTo) && ghost.l_optRead == old(ghost.l_optRead) && (forall d ref :: d in ghost.l_kept && d != descriptor ==> d in old(ghost.l_kept)) && (forall d namedDescriptor :: d != descriptor ==> ((d in t.elements) <==> (d in old(t.elements))) && t.elements[d] == old(t.elements)[d])
 //@   ensures excluded-is-noop: f_mode(old(t.elements), descriptor) == inclusionModeExcluded ==> err == nil && t.elements == old(t.elements) && t.imports == old(t.imports) && ghost.l_kept == old(ghost.l_kept) && ghost.l_optRead == old(ghost.l_optRead) && ghost.l_impTo == old(ghost.l_impTo) && ghost.l_impCount == old(ghost.l_impCount)
 //@   ensures already-added-adds-only-import: descriptor in old(imageIndex.ByDescriptor) && descriptor in old(t.elements) && old(t.elements)[descriptor] != inclusionModeEnclosing && old(t.elements)[descriptor] != inclusionModeExcluded ==> err == nil && ghost.l_kept == old(ghost.l_kept) && ghost.l_optRead == old(ghost.l_optRead) && ghost.l_impCount == old(ghost.l_impCount) + 1 && ghost.l_impTo == add(old(ghost.l_impTo), old(imageIndex.ByDescriptor)[descriptor].file.Path())
 //@   ensures already-added-only-upgraded: descriptor in old(t.elements) && old(t.elements)[descriptor] != inclusionModeEnclosing && old(t.elements)[descriptor] != inclusionModeExcluded ==> (forall d namedDescriptor :: d != descriptor ==> ((d in t.elements) <==> (d in old(t.elements))) && t.elements[d] == old(t.elements)[d]) && descriptor in t.elements && t.elements[descriptor] == ite(old(t.elements)[descriptor] == inclusionModeImplicit && !impliedByCustomOption, inclusionModeExplicit, old(t.elements)[descriptor])
